@@ -91,7 +91,7 @@ class TlcResult:
     def coverage(self):
         """action name -> (distinct, total) from -coverage output"""
         cov = {}
-        for m in re.finditer(r"<(\w+) line \d+, col \d+ to line \d+, col \d+ of module (\w+)>: (\d+):(\d+)", self.out):
+        for m in re.finditer(r"<(\w+) line \d+, col \d+ to line \d+, col \d+ of module (\w+)(?: \([\d ]+\))?>: (\d+):(\d+)", self.out):
             cov[m.group(1)] = (int(m.group(3)), int(m.group(4)))
         return cov
 
@@ -138,7 +138,7 @@ class Ctx:
 
     # ---------------------------------------------------------------- TLC
     def tlc(self, module, cfg, env=None, workers=None, simulate=None, depth=None, dump=None,
-            coverage=False, timeout=900, expect_ok=True, extra=None, count=True, dfs=False, note=None):
+            coverage=False, timeout=900, expect_ok=True, extra=None, count=True, dfs=False, note=None, actions=None):
         """Run TLC on spec/<module>.tla with config text or file `cfg`.  Returns TlcResult."""
         if "\n" in cfg or " " in cfg:
             cfgfile = self.newfile(module, "cfg")
@@ -163,7 +163,7 @@ class Ctx:
         cmd += ["-workers", str(workers)]
         if dump:
             cmd += ["-dump", "dot,actionlabels", dump]
-        if coverage:
+        if coverage or actions:
             cmd += ["-coverage", "1"]
         if extra:
             cmd += extra
@@ -188,6 +188,12 @@ class Ctx:
                               "mode": "simulate" if simulate else "exhaustive"})
         if expect_ok and count and not simulate and r.distinct == 0 and ("SPECIFICATION" in open(cfgfile).read() or "INIT" in open(cfgfile).read()):
             raise MachineryError(f"TLC explored no state of {module} ({note}): the model is vacuous")
+        if actions and not (r.error or r.violated):
+            cov = r.coverage()
+            dead = [a for a in actions if cov.get(a, (0, 0))[1] == 0]
+            if dead:
+                raise MachineryError(f"vacuity: action(s) {dead} of {module} were never taken in '{note}' (coverage {cov})")
+            self.tlc_runs[-1]["actions_taken"] = {a: cov[a][1] for a in actions}
         if expect_ok and (r.error or r.violated):
             tail = "\n".join(p.stdout.splitlines()[-60:])
             raise MachineryError(f"TLC failed on {module} ({note}): violated={r.violated}\n{tail}")
